@@ -165,5 +165,5 @@ def run(tier, seed, only=None):
     res = run_prop("C06", tier, seed, only)
     return res.finish(RULE, assumptions=[
         "oracle: exact result on 256-bit sign-magnitude integers (rt/x256.h) from operand values; result type from decltype on plain integers",
-        "float sources: values strictly between max and max+1 (lowest-1 and lowest) are a don't-care band; NaN excluded",
+        "float sources: values strictly between max and max+1 (lowest-1 and lowest) are a don't-care band; NaN has no exact result and is judged by C07 for its event kind only",
         "domain: divisor != 0, shift count >= 0", "UB traps/aborts are reported by C07, not here"])
